@@ -20,7 +20,7 @@ NOTES = {
  "C13-m11": "needed the union object itself reset and used again (`union_reset_and_reused`) in the Tuple world", "C14-m11": "needed images written behind a caller-reserved header (`serialize(h)`, h in 1..40)",
  "C16-m11": "needed the rule 'a sample of a union result is never lighter than it was in its input sketch'",
  "C10-m11": "needed world `c10qq` (classic quantiles images of a foreign writer: compact, ordered flag clear, base buffer in arrival order; serial version 2)",
- "C17-m11": "as built (after the non-dyadic value patterns)", "C15-m11": "NOT caught: needs a filter above 2^32 bits (512 MiB of bit array) viewed through wrap/deserialize; the tiers stop at 2^20 bits", "C12-m11": "NOT caught: needs keys placed slot by slot in the hash map (adversarial placement through the inverse of the fmix64 finalizer); bounds still bracket the truth, only the size of the maximum error is affected",
+ "C17-m11": "as built (after the non-dyadic value patterns)", "C15-m11": "NOT caught: needs a filter above 2^32 bits (512 MiB of bit array) viewed through wrap/deserialize; the tiers stop at 2^20 bits", "C12-m11": "needed the `placed_purge` step (a fresh sketch at its maximum map size receives one key per home slot - std::hash<int64_t> is the identity, slot = fmix64(key) & mask - with a rotated light-only quarter and half of the rest heavy)",
  # round 3
  "C03-m4": "needed the `flat_fill` step (one input per slot, all with the same register value)",
  "C08-m3": "needed oracle 4: stride offsets of the classic down-sampling merge enumerated by scripting the 64-bit draw",
@@ -61,7 +61,7 @@ NOTES = {
  # round 6 (stored as m9 / m10)
  "C02-m10": "needed similarity_test / dissimilarity_test at, just above and just below the exact ratio",
  "C03-m9": "needed the `spikes` step (2..15 inputs with register value >= 16 in different slots: the HLL_4 exception table grows)",
- "C04-m10": "NOT caught: after reset() the pinned tree itself keeps the gadget's reduced lg_k, so lg_k is not judged after a reset",
+ "C04-m10": "was not caught while lg_k was not judged after a reset; **obsolete since fix 067cd87** (a reset union is a new union of lg_max_k, so an empty gadget never has a reduced lg_k and the change no longer alters behaviour); lg_k is now judged after a reset",
  "C07-m10": "needed copy assignment onto a live sketch (not only copy construction), read at once",
  "C13-m9": "needed copy assignment between update sketches of different theta",
  "C15-m9": "needed set operations through a read-only target (refused) and a read-only view as source operand (accepted)",
